@@ -108,7 +108,17 @@ class AnyArgsInjector(Injector):
         return Injector.__call__(self)
 
 
-INJECTORS = {"plain": Injector, "budget": BudgetInjector, "falsy": NeverTrueInjector, "anyargs": AnyArgsInjector}
+class CountingInjector(Injector):
+    """A callback that RETURNS something (its invocation count, as a Mock or a counter's __next__ would):
+    a return value is not a raise."""
+
+    def __call__(self):
+        Injector.__call__(self)
+        return self.calls
+
+
+INJECTORS = {"plain": Injector, "budget": BudgetInjector, "falsy": NeverTrueInjector, "anyargs": AnyArgsInjector,
+             "counting": CountingInjector}
 
 
 def n_subcubes(w):
@@ -374,7 +384,7 @@ def plans_for(w, rng, tier, est_steps):
                       "recovery": rng.choice(("serial", "pooled"))})
     for p in plans:
         p.setdefault("poolsize", rng.choice((1, 2, 3, 4, 8)))
-        p["injector"] = rng.choice(("plain", "plain", "budget", "falsy", "anyargs"))
+        p["injector"] = rng.choice(("plain", "plain", "budget", "falsy", "anyargs", "counting"))
         p["via"] = rng.choice(("instance", "instance", "instance", "subclass-attribute", "subclass-method"))
         if p["via"] != "instance":
             p["injector"] = "plain"
